@@ -64,6 +64,7 @@ func main() {
 		{"GpkgWriterGen.v", genGpkgWriter},
 		{"GpkgSchemaGen.v", genGpkgSchema},
 		{"TmsAddrGen.v", genTmsAddr},
+		{"DeviationGen.v", genDeviation},
 	}
 	failed := false
 	for _, g := range gens {
